@@ -174,6 +174,68 @@ def f1_f2(check, prog, canon):
 
 
 # ----------------------------------------------------------------------
+def _dict_of_normalised(ret, c, q):
+    """ret is {k: to_vector(v) for k, v in c.items()} in one of its spellings:
+    a comprehension, or a loop that stores into a copy of c / a new dict.
+    Returns (ok, detail, the result is a new dictionary)."""
+    def items_of(t):
+        # the mapping whose items / keys t iterates over, and whether elements
+        # are (key, value) pairs
+        if t[0] == 'call' and isinstance(t[1], tuple) and t[1][0] == 'attr' and \
+                t[1][2] in ('items', 'keys') and not t[2]:
+            return t[1][1], t[1][2] == 'items'
+        return t, False
+
+    def same_mapping(m):
+        # c itself or a shallow copy of it
+        if m == c:
+            return True
+        if m[0] == 'call' and isinstance(m[1], tuple) and m[1][0] == 'attr' and \
+                m[1][2] == 'copy' and m[1][1] == c:
+            return True
+        if m[0] == 'call' and m[1] in ('dict', 'copy.copy') and m[2] == (c,):
+            return True
+        if m[0] == 'copy' and m[-1] == c:
+            return True
+        return False
+
+    def good(K, V, itr):
+        m, pairs = items_of(itr)
+        if not same_mapping(m):
+            return False, 'iterates over %s' % show(itr)[:80]
+        el = [x for x in subterms(K) if x[0] == 'elem' and x[1] == itr]
+        if not el:
+            return False, 'key %s is not the iteration key' % show(K)[:80]
+        e = el[0]
+        key = intern(('idx', e, num(0))) if pairs else e
+        if K != key:
+            return False, 'key %s is not the iteration key' % show(K)[:80]
+        if not (V[0] == 'call' and V[1] in (q, 'to_vector') and len(V[2]) == 1):
+            return False, 'value %s is not to_vector(...) of the entry' % show(V)[:80]
+        a = V[2][0]
+        if pairs and a == intern(('idx', e, num(1))):
+            return True, ''
+        if a[0] == 'idx' and a[2] == key and same_mapping(a[1]):
+            return True, ''
+        return False, 'value is to_vector(%s), not of the entry under that key' % \
+            show(a)[:80]
+    t = ret
+    if t[0] == 'call' and t[1] == 'dict' and len(t[2]) == 1 and t[2][0][0] == 'comp':
+        t = ('comp', 'dict') + tuple(t[2][0][2:])
+    if t[0] == 'comp' and t[1] == 'dict' and t[2][0] == 'tuple' and len(t[3]) == 1 \
+            and not t[3][0][2]:
+        K, V = t[2][1]
+        return good(K, V, t[3][0][1]) + (True,)
+    if t[0] == 'loop':
+        init, step, itr = t[3], t[4], t[5]
+        if not (same_mapping(init) or init == ('dict', ())):
+            return False, 'starts from %s' % show(init)[:80], False
+        if not (step[0] == 'upd' and step[1][0] == 'phi' and step[2] == 'item'):
+            return False, 'loop step is %s' % show(step)[:100], False
+        return good(step[3], step[4], itr) + (init != c,)
+    return False, 'returns %s' % show(ret)[:120], False
+
+
 def f3_vectors(check, prog, canon):
     q = M + 'to_vector'
     fd = prog.func(q)
@@ -241,6 +303,22 @@ def f3_vectors(check, prog, canon):
                   'of length 5 -- the reference wave of calc_holo is then 25 times too '
                   'strong at scaling 0, and update_metadata stores an unnormalised '
                   'polarisation' % c0.show(ret)[:120])
+    # ... and per channel when it arrives as a dictionary: the result has the keys
+    # of the argument, each value normalised by the same function
+    def decide3(t):
+        if t[0] == 'cmp' and t[1] == 'is' and t[3] in (NONE, FALSE):
+            return False
+        if t[0] == 'call' and t[1] == 'hasattr':
+            return False
+        if t[0] == 'call' and t[1] == 'isinstance':
+            return True
+        return None
+    it = Interp(prog, max_depth=0, decide=decide3)
+    ret = it.analyze(q).ret
+    ok, detail, fresh_ = _dict_of_normalised(ret, c, q)
+    check.require(ok, 'F3-unit-polarization', 'to_vector dictionary',
+                  'a dictionary of polarisations comes back with the same keys, '
+                  'each value passed through to_vector', loc, fail_detail=detail)
     # dict_to_array: labels and values in one order
     q = M + 'dict_to_array'
     fd = prog.func(q)
